@@ -14,5 +14,5 @@ CONSTANTS
   CompileMode = "stated"
 INIT Init
 NEXT Next
-INVARIANTS KeepInv BalanceSheetInv IncomeInv EquityInv TxBalanceInv FilterInv CompileInv SortedInv ExpectInv
+INVARIANTS KeepInv BalanceSheetInv IncomeInv EquityInv TxBalanceInv LayoutInv FilterInv CompileInv SortedInv ExpectInv
 CHECK_DEADLOCK FALSE
